@@ -11,6 +11,10 @@ class StubFunction:
 
 def replay(f):
     w = f["witness"]
+    if "op" in w and "files" in w:
+        from harness.bref_replay import replay_with
+
+        return replay_with(f, check_imports=True)
     deftext, calltext, desc = w["deftext"], w["calltext"], w["changers"]
     changers = []
     for ci, d in enumerate(desc):
